@@ -132,7 +132,7 @@ def worker(slot, q, lock):
                 res["status"] = "survives-tests"
                 det = {}
                 for pid in PROPS:
-                    rc, o = sh(f"cd {M}/verif && BV_NO_LIBFUZZER=1 ./check {pid} 2>&1 | grep -E '^--- violation|^bv: property' | head -4", timeout=1500)
+                    rc, o = sh(f"cd {M}/verif && BV_NO_LIBFUZZER=1 ./check {pid} > {M}/check.out 2>&1; grep -E '^--- violation' {M}/check.out | head -3; grep -E '^bv: property' {M}/check.out | tail -1", timeout=1500)
                     m = re.search(r"violations=(\d+)", o)
                     if m is None:
                         det[pid] = "inconclusive"
